@@ -486,7 +486,9 @@ def frag(rng):
         return f"{rng.choice([ref_name(rng)] * 9 + ['...', '--', '…', '.-.'])}{rng.choice([', ', ', ', ' , ', ' '])}{rng.choice(['', num(rng) + ' '])}{foldvar(rng, 'supra')}{rng.choice([', at ' + num(rng), '', ',', ' at ' + num(rng), ' note ' + num(rng) + ', at ' + num(rng), ' note ' + num(rng), ', n. ' + num(rng) + ', at ' + num(rng)])}"
     if r < 0.65:
         return foldvar(rng, rng.choice(["Id.", "Id. at " + num(rng), "Ibid.", "id., at " + num(rng) + "-" + num(rng),
-                                        "Id. at " + num(rng) + " (noting x)", "Id., at *" + num(rng)]))
+                                        "Id. at " + num(rng) + " (noting x)", "Id., at *" + num(rng),
+                                        # a pin cite whose digits are at once the volume of a following supra
+                                        "id. at " + num(rng) + " supra note " + num(rng), "Id. at " + num(rng) + " supra"]))
     if r < 0.71:
         return rng.choice(["42 U.S.C. § 1983", "Mass. Gen. Laws ch. 1, § 2 (West 1999)", "§ 5", "§§ 1-2",
                            "29 C.F.R. § 1910.1200(a)(2)", "Fla. Stat. § 1.01 (2020)",
@@ -660,6 +662,13 @@ def mk_ref(rng, n):
 def markup_doc(rng):
     parts, seen = [], []
     for _ in range(rng.randint(1, 6)):
+        if rng.random() < 0.08:
+            # a full citation introduced by a single name only ('Twombly, 550 U.S. 544'): it has an antecedent
+            # guess but no party names; the name is emphasised again later
+            n = rng.choice([x for x in MK_NAMES if " " not in x])
+            parts.append(f"{n}, {rng.randint(1, 600)} {rng.choice(MK_REPS)} {rng.randint(1, 900)} ({rng.randint(1950, 2020)}). In {_it(rng, n + ',')} the court held; {_it(rng, n)} at {rng.randint(1, 900)}; {n} at {rng.randint(1, 900)}")
+            parts.append(". ")
+            continue
         if not seen or rng.random() < 0.4:
             f, (P, D) = mk_full(rng, seen)
             parts.append(f)
